@@ -2316,6 +2316,8 @@ impl<'c, 's:'c, 'r, 'm:'c> SpeechRulesWithContext<'c, 's,'m> {
             }
             if pattern.is_match(&self.context_stack.base, mathml)
                     .chain_err(|| error_string(pattern, mathml) )? {
+                #[cfg(feature = "verif-hooks")]
+                verif_record_rule_hit(&self.speech_rules.name, pattern);
                 if !pattern.match_uses_var_defs && pattern.var_defs.len() > 0 { // don't push them on twice
                     self.context_stack.push(pattern.var_defs.clone(), mathml)?;
                 }
@@ -2612,6 +2614,84 @@ pub fn braille_replace_chars(str: &str, mathml: Element) -> Result<String> {
 }
 
 
+
+#[cfg(feature = "verif-hooks")]
+thread_local!{
+    /// Verification hook state (feature `verif-hooks`): how often each rule matched since the last call to `verif_rule_hits`
+    static VERIF_RULE_HITS: RefCell<HashMap<String, usize>> = RefCell::new( HashMap::with_capacity(1023) );
+}
+
+#[cfg(feature = "verif-hooks")]
+fn verif_json_escape(s: &str) -> String {
+    let mut out = String::with_capacity(s.len() + 2);
+    for ch in s.chars() {
+        match ch {
+            '"' => out.push_str("\\\""),
+            '\\' => out.push_str("\\\\"),
+            c if (c as u32) < 0x20 => out.push_str(&format!("\\u{:04x}", c as u32)),
+            c => out.push(c),
+        }
+    }
+    return out;
+}
+
+#[cfg(feature = "verif-hooks")]
+fn verif_record_rule_hit(rules_for: &RulesFor, pattern: &SpeechPattern) {
+    let key = format!("{}|{}|{}|{}", rules_for, pattern.file_name, pattern.tag_name, pattern.pattern_name);
+    VERIF_RULE_HITS.with(|hits| *hits.borrow_mut().entry(key).or_insert(0) += 1);
+}
+
+#[cfg(feature = "verif-hooks")]
+/// Verification hook (feature `verif-hooks`, off by default; read-only apart from clearing its own counters).
+/// Returns a JSON object "table|file|tag|rule name" -> number of successful matches since the last call.
+pub fn verif_rule_hits() -> String {
+    return VERIF_RULE_HITS.with(|hits| {
+        let mut hits = hits.borrow_mut();
+        let mut entries = hits.iter().map(|(k, v)| format!("\"{}\":{}", verif_json_escape(k), v)).collect::<Vec<String>>();
+        entries.sort();
+        hits.clear();
+        return format!("{{{}}}", entries.join(","));
+    });
+}
+
+#[cfg(feature = "verif-hooks")]
+/// Verification hook (feature `verif-hooks`, off by default; read-only).
+/// Returns a JSON array describing, for each of the five rule tables of the calling thread, what is loaded
+/// (files recorded as read, table sizes) and which files the current preferences select.
+pub fn verif_loaded_files() -> String {
+    fn paths(files: &FilesAndTimes) -> String {
+        return files.ft.iter()
+                .map(|ft| format!("\"{}\"", verif_json_escape(&ft.file.to_string_lossy())))
+                .collect::<Vec<String>>().join(",");
+    }
+    fn path(p: &Path) -> String {
+        return format!("\"{}\"", verif_json_escape(&p.to_string_lossy()));
+    }
+    fn describe(rules: &SpeechRules) -> String {
+        let pref_manager = rules.pref_manager.borrow();
+        let is_braille = rules.name == RulesFor::Braille;
+        let unicode_pref_files = if is_braille {pref_manager.get_braille_unicode_file()} else {pref_manager.get_speech_unicode_file()};
+        let n_patterns: usize = rules.rules.values().map(|v| v.len()).sum();
+        return format!("{{\"table\":\"{}\",\"error\":\"{}\",\"n_tags\":{},\"n_patterns\":{},\"rule_files\":[{}],\
+                         \"unicode_short_len\":{},\"unicode_short_files\":[{}],\"unicode_full_len\":{},\"unicode_full_files\":[{}],\
+                         \"definitions_files\":[{}],\
+                         \"pref_rule_file\":{},\"pref_unicode_short\":{},\"pref_unicode_full\":{},\"pref_definitions\":{}}}",
+            rules.name, verif_json_escape(&rules.error), rules.rules.len(), n_patterns, paths(&rules.rule_files),
+            rules.unicode_short.borrow().len(), paths(&rules.unicode_short_files.borrow()),
+            rules.unicode_full.borrow().len(), paths(&rules.unicode_full_files.borrow()),
+            paths(&rules.definitions_files.borrow()),
+            path(pref_manager.get_rule_file(&rules.name)), path(unicode_pref_files.0), path(unicode_pref_files.1),
+            path(pref_manager.get_definitions_file(!is_braille)));
+    }
+    let tables = vec![
+        INTENT_RULES.with(|rules| describe(&rules.borrow())),
+        SPEECH_RULES.with(|rules| describe(&rules.borrow())),
+        OVERVIEW_RULES.with(|rules| describe(&rules.borrow())),
+        NAVIGATION_RULES.with(|rules| describe(&rules.borrow())),
+        BRAILLE_RULES.with(|rules| describe(&rules.borrow())),
+    ];
+    return format!("[{}]", tables.join(","));
+}
 
 #[cfg(test)]
 mod tests {
